@@ -104,6 +104,14 @@ Proof.
   intros a. symmetry. apply is_RInt_unique. apply ei_integral_proper.
 Qed.
 
+(* the same with the integrand parenthesised ((best - y) * pdf z) / sigma *)
+Corollary ei_is_expected_improvement_lim' :
+  is_lim (fun a => RInt (fun y => (best - y) * pdf ((y - mu) / sigma) / sigma) a best) m_infty (sigma * G ((best - mu) / sigma)).
+Proof.
+  apply (is_lim_ext (fun a => RInt (fun y => (best - y) * ndens y) a best)); [|apply ei_is_expected_improvement_lim].
+  intros a. apply RInt_ext. intros y _. unfold ndens, Rdiv. symmetry; apply Rmult_assoc.
+Qed.
+
 (* the same, as Coquelicot's generalised Riemann integral *)
 Theorem ei_is_expected_improvement_gen :
   is_RInt_gen (fun y => (best - y) * ndens y) (Rbar_locally m_infty) (at_point best) (sigma * G ((best - mu) / sigma)).
